@@ -264,6 +264,8 @@ def run(tier):
         rep.ob("C06.emit|%s" % dd, ok, "pass 2 appends exactly the result of %s for a %s item" % (want, DIRECTIVE[dd]) if ok else
                "pass 2 does not append the plain result of %s for %s items" % (want, DIRECTIVE[dd]))
     rep.floor("pass-1 item paths", len(rows1), 40)
+    import rules_C02
+    rules_C02.byte_operand_dropped(P, rep, "C06.byte|operand", "`.eseg / .byte COUNT` with a constant contributes no bytes at all to the EEPROM image and does not move what follows")
     return rep
 
 
